@@ -24,8 +24,10 @@ def expand_locals(fn: ast.AST, e: ast.AST, depth: int = 4) -> str:
     for n in ast.walk(fn):
         if isinstance(n, ast.Name) and isinstance(n.ctx, (ast.Store, ast.Del)):
             counts[n.id] = counts.get(n.id, 0) + 1
+    params = {a.arg for a in ast.walk(fn) if isinstance(a, ast.arg)}
     for n in ast.walk(fn):
-        if isinstance(n, ast.Assign) and len(n.targets) == 1 and isinstance(n.targets[0], ast.Name) and counts.get(n.targets[0].id) == 1:
+        if isinstance(n, ast.Assign) and len(n.targets) == 1 and isinstance(n.targets[0], ast.Name) and counts.get(n.targets[0].id) == 1 \
+                and n.targets[0].id not in params and not any(isinstance(x, ast.Name) and x.id == n.targets[0].id for x in ast.walk(n.value)):
             single[n.targets[0].id] = n.value
 
     class T(ast.NodeTransformer):
@@ -102,7 +104,7 @@ def no_mutation_of_iterated(ctx, modname: str, why: str):
 VALIDATORS = ("_is_base_n(", "is_float(", "is_base_n(", "_looks_like_number(")
 
 
-def checked_conversions(ctx, quals: Iterable[str], exempt_sources: Tuple[str, ...] = ("_user_value",)):
+def checked_conversions(ctx, quals: Iterable[str], exempt_sources: Tuple[str, ...] = ("_user_value",), validated_params: Tuple[str, ...] = ()):
     """Every int(x, base) / float(x) applied to a symbol's *value* in the given functions is guarded by the matching
     validity predicate (dominating guard or the test of the conditional expression), sits in a try that handles
     ValueError, or converts a value that was validated when it was stored (user values)."""
@@ -132,6 +134,9 @@ def checked_conversions(ctx, quals: Iterable[str], exempt_sources: Tuple[str, ..
             if any(s in at or s in src_txt for s in exempt_sources):
                 ctx.ok(construct, f.loc(n), by="validated when stored")
                 continue
+            if isinstance(arg, ast.Name) and arg.id in validated_params and _validated_by_early_try(repo, f, arg.id, n):
+                ctx.ok(construct, f.loc(n), by="same text already converted in a try whose ValueError handler leaves the function")
+                continue
             gs = fl.guards_at(n) or set()
             guarded = any(p and k2.startswith(VALIDATORS) for k2, p in gs)
             # value derived from a validated one in the same block: `val = x.name` / `_normalize_float(x.name)` under the guard
@@ -149,6 +154,19 @@ def checked_conversions(ctx, quals: Iterable[str], exempt_sources: Tuple[str, ..
             else:
                 ctx.bad(construct, f"`{ast.unparse(n)}` converts a symbol value that no `_is_base_n`/`is_float` test (and no ValueError handler) "
                         "covers: a non-numeric value (a symbol bound, a string, an empty value) raises ValueError out of the evaluator", f.loc(n))
+
+
+def _validated_by_early_try(repo, f, name: str, site: ast.AST) -> bool:
+    """an earlier top-level `try` converts `name` with the same builtin and its ValueError handler ends with return/raise"""
+    for st in f.node.body:
+        if any(x is site for x in ast.walk(st)):
+            return False
+        if isinstance(st, ast.Try) and any(isinstance(c, ast.Call) and isinstance(c.func, ast.Name) and c.func.id in ("int", "float") and c.args
+                                            and isinstance(c.args[0], ast.Name) and c.args[0].id == name for b in st.body for c in ast.walk(b)):
+            if any((h.type is None or "ValueError" in ast.unparse(h.type) or "Exception" in ast.unparse(h.type))
+                   and h.body and isinstance(h.body[-1], (ast.Return, ast.Raise)) for h in st.handlers):
+                return True
+    return False
 
 
 # --------------------------------------------------------------------------- statement order among top-level blocks
